@@ -426,11 +426,11 @@ Proof.
 Qed.
 
 Lemma request_change_spec : forall D fuel ch w cw h,
-  hinv D h -> findw h w = Some cw -> (w_parent cw = None \/ anc h w root) ->
+  hinv D h -> findw h w = Some cw -> (w_parent cw = None \/ anc h w root) -> is_restack ch = true ->
   hoare (fun h1 => h1 = h) (request_change fuel ch w)
         (fun _ h' => hinv D h' /\ wins h' = wins h /\ nextw h' = nextw h).
 Proof.
-  intros D fuel ch w cw h HI Hw Hpre h0 E. subst h0. unfold request_change.
+  intros D fuel ch w cw h HI Hw Hpre Hrs h0 E. subst h0. unfold request_change.
   unfold bind at 1. rewrite (getw_run h w cw Hw).
   destruct (w_parent cw) as [p|] eqn:Hwp; [|cbn; auto].
   destruct Hpre as [Hpre|Hanc]; [discriminate|].
@@ -464,18 +464,22 @@ Proof.
             nextq h' = Pos.succ (nextq h) ->
             qchain h' (r_queue (rx h')) (ql ++ [q]) ->
             (forall a, findq h' a <> None <-> (a = q \/ findq h a <> None)) ->
-            (forall a ca, findq h' a = Some ca -> a = q /\ q_win ca = Some w /\ q_parent ca = Some p \/
-                           exists ca0, findq h a = Some ca0 /\ q_win ca = q_win ca0 /\ q_parent ca = q_parent ca0) ->
+            (forall a ca, findq h' a = Some ca -> a = q /\ q_win ca = Some w /\ q_parent ca = Some p /\ q_change ca = ch \/
+                           exists ca0, findq h a = Some ca0 /\ q_win ca = q_win ca0 /\ q_parent ca = q_parent ca0 /\
+                                       q_change ca = q_change ca0) ->
             hinv D h' /\ wins h' = wins h /\ nextw h' = nextw h).
   { intros h' Hw' Hnw' Hd' Hnq' Hc' Hlive' Hent'. split; [|auto].
     eapply hinv_set_queue; eauto.
     - intros a Ha. rewrite Hnq'. apply Hlive' in Ha. destruct Ha as [Ea|Ha]; [subst a; unfold q; lia|].
       pose proof (hi_nextq D h HI a Ha). lia.
+    - intros a ca Hfa. destruct (Hent' a ca Hfa) as [[_ [_ [_ Ec]]]|[ca0 [H0 [_ [_ Ec]]]]].
+      + rewrite Ec. exact Hrs.
+      + rewrite Ec. exact (hi_qkind D h HI a ca0 H0).
     - exists (ql ++ [q]). split; [exact Hc'|]. split.
       + intro a. rewrite Hlive'. rewrite <- Hq2. split; intro Hin.
         * apply in_app_or in Hin. destruct Hin as [Hin|[Hin|[]]]; auto.
         * apply in_or_app. destruct Hin; [right; left; auto|left; auto].
-      + intros a ca Hfa. destruct (Hent' a ca Hfa) as [[Ea [Ew Ep]]|[ca0 [H0 [E1 E2]]]].
+      + intros a ca Hfa. destruct (Hent' a ca Hfa) as [[Ea [Ew [Ep _]]]|[ca0 [H0 [E1 [E2 _]]]]].
         * exists w, p, cw. auto.
         * destruct (Hq3 a ca0 H0) as [x [p0 [cx [G1 [G2 G3]]]]]. exists x, p0, cx. rewrite E1, E2. auto. }
   change (rx h1) with (rx h).
@@ -524,7 +528,7 @@ Proof.
       * apply Pos.eqb_eq in Ea. subst a. inversion Hfa; subst ca. right. exists cl. auto.
       * destruct (Pos.eqb a q) eqn:Eq.
         -- apply Pos.eqb_eq in Eq. subst a. inversion Hfa; subst ca. left. auto.
-        -- right. eauto.
+        -- right. eauto 10.
   - (* the queue was empty *)
     inversion Hq1; subst.
     unfold bind at 1. unfold setr, bind. rewrite (getw_run h1 root cr Hr). rewrite Hir.
@@ -541,7 +545,7 @@ Proof.
       * apply Pos.eqb_neq in Ea. split; [auto|intros [Hx|Hx]; [congruence|exact Hx]].
     + intros a ca Hfa. change (findq h' a) with (findq h1 a) in Hfa. rewrite Fq1 in Hfa. destruct (Pos.eqb a q) eqn:Ea.
       * apply Pos.eqb_eq in Ea. subst a. inversion Hfa; subst ca. left. auto.
-      * right. eauto.
+      * right. eauto 10.
 Qed.
 
 (* ---- calls that neither create nor free nor re-parent ------------------------------------------------------ *)
